@@ -332,7 +332,7 @@ def run_binding(ctx, out):
     from .lib import coqio
     from .lib.runner import Failure
     rng = ctx.rng
-    n = ctx.budget(100, 1200)
+    n = ctx.budget(100, 800)
     cases = [{"ds": c["ds"], "ret": c["ret"]} for c in ctx.corpus() if "ds" in c]
     while len(cases) < n:
         cases.append(gen_bind_case(rng))
@@ -394,7 +394,7 @@ def gen13(rng, pool):
 
 
 def run(ctx):
-    out = c11.run(ctx, prop="C13", pool=POOL13, gen=gen13, rule=RULE, budget=(30, 300))
+    out = c11.run(ctx, prop="C13", pool=POOL13, gen=gen13, rule=RULE, budget=(30, 150))
     return run_binding(ctx, out)
 
 
